@@ -170,6 +170,7 @@ type regWorld struct {
 	out     []regOut // written during the current step
 	panicky string
 	td      *tdExt // composed teardown world (TestTeardown) or nil
+	bare    map[int]map[string]bool // entities known without features (announced again by an `added` entry that lists none)
 	gen     map[int]int  // current connection of a peer
 	variant int          // optional parts of the removal entries of the current op (bit 1: no entityType, 2: no device part, 4: description)
 	late    map[int]bool // peers whose discovery reply has not arrived yet (op "discover p")
@@ -276,7 +277,7 @@ func newRegWorldTd(npeers int, ev *regEvents, base int, td bool, late, broken ma
 	if broken == nil {
 		broken = map[int]bool{}
 	}
-	w := &regWorld{gen: map[int]int{}, late: late, broken: broken, npeers: npeers, rds: map[int]api.DeviceRemoteInterface{}, log: &regLog{}, ctr: map[int]uint64{}, alive: map[int]bool{},
+	w := &regWorld{bare: map[int]map[string]bool{}, gen: map[int]int{}, late: late, broken: broken, npeers: npeers, rds: map[int]api.DeviceRemoteInterface{}, log: &regLog{}, ctr: map[int]uint64{}, alive: map[int]bool{},
 		gone: map[int]map[string]bool{}, ev: ev, base: base}
 	l := spine.NewDeviceLocal("b", "m", "s", "c", "HEMS", model.DeviceTypeTypeEnergyManagementSystem, model.NetworkManagementFeatureSetTypeSmart)
 	e1 := spine.NewEntityLocal(l, model.EntityTypeTypeCEM, spine.NewAddressEntityType([]uint{1}), time.Second*4)
@@ -550,8 +551,8 @@ func regTypeOk(f *regFeat, typ int) bool     { return f.typ == typ || f.typ == 0
 // requesting client feature exists on that peer with client role and matching type"
 func (w *regWorld) specRequestOk(p int, ce string, cf uint, se string, sf uint, typ int) bool {
 	sv, cl := regFind(regLocalFeats, se, sf), regFind(regRemoteFeats, ce, cf)
-	if sv == nil || cl == nil || w.gone[p][ce] {
-		return false
+	if sv == nil || cl == nil || w.gone[p][ce] || w.bare[p][ce] {
+		return false // (the features of a bare entity are not announced)
 	}
 	return regRoleOk(sv, "server") && regTypeOk(sv, typ) && regRoleOk(cl, "client") && regTypeOk(cl, typ)
 }
@@ -596,6 +597,7 @@ type regStats struct {
 	lastBop                                                               *regBop
 	lastPasses                                                            []string // the passes of the last teardown, as model ops
 	injected                                                              int
+	staleDeletes                                                          int
 	lastRemoved                                                           []string // entities removed by the last notification
 }
 
@@ -627,6 +629,11 @@ func runRegHistoryTd(r *h.Report, d *h.Driver, ev *regEvents, base int, ops []st
 			}
 		} else {
 			d.Ask("reset")
+			for q := 1; q <= np; q++ {
+				if broken[q] {
+					d.Ask(fmt.Sprintf("broken %d", q))
+				}
+			}
 		}
 	}
 	done := []string{ops[0]}
@@ -661,7 +668,7 @@ func runRegHistoryTd(r *h.Report, d *h.Driver, ev *regEvents, base int, ops []st
 		atoi := func(i int) int { n, _ := strconv.Atoi(f[i]); return n }
 		requester := 0
 		switch f[0] {
-		case "sub", "unsub", "bind", "unbind", "write", "drop", "dropent", "wr", "read", "discover", "addent", "full":
+		case "sub", "unsub", "bind", "unbind", "write", "drop", "dropent", "wr", "read", "discover", "addent", "full", "bareent":
 			requester = atoi(1)
 		}
 		if requester != 0 && (requester > np || !w.alive[requester]) {
@@ -673,7 +680,7 @@ func runRegHistoryTd(r *h.Report, d *h.Driver, ev *regEvents, base int, ops []st
 		if requester != 0 && w.broken[requester] && (f[0] == "write" || f[0] == "wr" || f[0] == "read") {
 			continue // nothing of these is observable on a connection that cannot be written to
 		}
-		if f[0] == "discover" && !w.late[requester] || f[0] == "addent" && !w.gone[requester][f[2]] {
+		if f[0] == "discover" && !w.late[requester] || f[0] == "addent" && !w.gone[requester][f[2]] && !w.bare[requester][f[2]] {
 			continue
 		}
 		if f[0] == "reconnect" {
@@ -782,6 +789,13 @@ func runRegHistoryTd(r *h.Report, d *h.Driver, ev *regEvents, base int, ops []st
 			own := cd == 0 || cd == p
 			pair := regPair(p, ce, cf, se, sf)
 			exists := own && regHas(pre, pair)
+			if exists && w.bare[p][ce] {
+				// observation, not judged: the entry is stale — its client feature is no longer announced (the entity was
+				// announced again without features) — and the code refuses a delete whose client feature it cannot find;
+				// the entry goes with the entity or the connection
+				exists = false
+				st.staleDeletes++
+			}
 			removed, added := regDiff(pre, post), regDiff(post, pre)
 			foreign := false
 			for _, e := range removed {
@@ -894,6 +908,7 @@ func runRegHistoryTd(r *h.Report, d *h.Driver, ev *regEvents, base int, ops []st
 					MsgCounter: util.Ptr(model.MsgCounterType(w.ctr[p])), CmdClassifier: &nc}, Payload: model.PayloadType{Cmd: []model.CmdType{cmd}}})
 				for _, e := range removedEnts {
 					w.gone[p][e] = true
+					delete(w.bare[p], e)
 				}
 				existed = len(removedEnts) > 0
 			}
@@ -986,7 +1001,7 @@ func runRegHistoryTd(r *h.Report, d *h.Driver, ev *regEvents, base int, ops []st
 			w.gen[p]++
 			w.l.SetupRemoteDevice(regSki(p), &regW{p, w.log, w.gen[p]})
 			w.rds[p] = w.l.RemoteDeviceForSki(regSki(p))
-			w.ctr[p], w.alive[p], w.gone[p] = 100, true, map[string]bool{}
+			w.ctr[p], w.alive[p], w.gone[p], w.bare[p] = 100, true, map[string]bool{}, map[string]bool{}
 			if w.td != nil {
 				w.td.used[p] = map[uint64]bool{}
 			}
@@ -1040,6 +1055,33 @@ func runRegHistoryTd(r *h.Report, d *h.Driver, ev *regEvents, base int, ops []st
 				r.SpecFail("C10/peer-not-served-after-its-discovery", done, fmt.Sprintf("after the discovery reply of peer %d its announced features are unknown", p))
 			}
 			w.ev.take()
+		case "bareent":
+			// an `added` entry for entity e that lists NO features: the entity stays (or becomes) known, its features are
+			// dropped, the registry entries of its former features stay
+			p, e := atoi(1), f[2]
+			wasGone := w.gone[p][e]
+			w.ctr[p]++
+			nc := model.CmdClassifierTypeNotify
+			added := model.NetworkManagementStateChangeTypeAdded
+			dd := regDiscovery(regDev(p), &added, []string{e})
+			dd.FeatureInformation = nil
+			w.inject(p, model.DatagramType{Header: model.HeaderType{AddressSource: h.FA(regDev(p), []uint{0}, 0), AddressDestination: h.FA("HEMS", []uint{0}, 0),
+				MsgCounter: util.Ptr(model.MsgCounterType(w.ctr[p])), CmdClassifier: &nc}, Payload: model.PayloadType{Cmd: []model.CmdType{{
+				Function: util.Ptr(model.FunctionTypeNodeManagementDetailedDiscoveryData), Filter: []model.FilterType{*model.NewFilterTypePartial()},
+				NodeManagementDetailedDiscoveryData: dd}}}})
+			if w.bare[p] == nil {
+				w.bare[p] = map[string]bool{}
+			}
+			w.gone[p][e], w.bare[p][e] = false, true
+			w.settle()
+			impl, kind = "done", "bareent"
+			evs := w.ev.take()
+			if evs["entity+"] != h.B2i(wasGone) || w.rds[p].Entity(spine.NewAddressEntityType(regParseEnt(e))) == nil || w.rds[p].FeatureByAddress(h.FA(regDev(p), regParseEnt(e), 1)) != nil {
+				r.SpecFail("C10/entity-added-not-processed", done, fmt.Sprintf("%s: entity-added events %d (entity was unknown: %v)", op, evs["entity+"], wasGone))
+			}
+			if postS, postB := w.snapshot(); len(regDiff(preS, postS))+len(regDiff(postS, preS))+len(regDiff(preB, postB))+len(regDiff(postB, preB)) > 0 {
+				r.SpecFail("C10/registry-changed-by-bareent", done, op)
+			}
 		case "addent":
 			p, e := atoi(1), f[2]
 			w.ctr[p]++
@@ -1049,11 +1091,13 @@ func runRegHistoryTd(r *h.Report, d *h.Driver, ev *regEvents, base int, ops []st
 				MsgCounter: util.Ptr(model.MsgCounterType(w.ctr[p])), CmdClassifier: &nc}, Payload: model.PayloadType{Cmd: []model.CmdType{{
 				Function: util.Ptr(model.FunctionTypeNodeManagementDetailedDiscoveryData), Filter: []model.FilterType{*model.NewFilterTypePartial()},
 				NodeManagementDetailedDiscoveryData: regDiscovery(regDev(p), &added, []string{e})}}}})
+			wasGone := w.gone[p][e]
 			w.gone[p][e] = false
+			delete(w.bare[p], e)
 			w.settle()
 			impl, kind = "done", "addent"
 			evs := w.ev.take()
-			if evs["entity+"] != 1 || w.rds[p].FeatureByAddress(h.FA(regDev(p), regParseEnt(e), 1)) == nil {
+			if evs["entity+"] != h.B2i(wasGone) || w.rds[p].FeatureByAddress(h.FA(regDev(p), regParseEnt(e), 1)) == nil {
 				r.SpecFail("C10/entity-added-not-processed", done, fmt.Sprintf("%s: entity-added events %d, feature %s/1 known: %v", op, evs["entity+"], e, w.rds[p].FeatureByAddress(h.FA(regDev(p), regParseEnt(e), 1)) != nil))
 			}
 			if postS, postB := w.snapshot(); len(regDiff(preS, postS))+len(regDiff(postS, preS))+len(regDiff(preB, postB))+len(regDiff(postB, preB)) > 0 {
@@ -1250,9 +1294,6 @@ func runRegHistoryTd(r *h.Report, d *h.Driver, ev *regEvents, base int, ops []st
 		}
 		if d != nil {
 			want := d.Ask(op)
-			if len(w.broken) > 0 && (f[0] == "notify" || f[0] == "update" || f[0] == "write") {
-				want = regDropBroken(want, w.broken)
-			}
 			if f[0] == "subs" || f[0] == "binds" {
 				// the property fixes that ids are pairwise distinct (monitored), not their values: a repair may draw
 				// the id before or after a check. Ids are compared by order of first appearance.
@@ -1371,7 +1412,10 @@ func genRegHistory(rng regRng, n, np int, faults bool) []string {
 	latePeer := 0
 	switch rng.Intn(6) {
 	case 0:
-		head += fmt.Sprintf(" broken:%d", 1+rng.Intn(np)) // one peer's connection cannot be written to
+		head += fmt.Sprintf(" broken:%d", 1+rng.Intn(np)) // one peer's connection cannot be written to …
+		if np == 3 && rng.Intn(2) == 0 {
+			head = fmt.Sprintf("peers 3 broken:%s", []string{"1,2", "1,3", "2,3"}[rng.Intn(3)]) // … or two of three
+		}
 	case 1:
 		latePeer = 1 + rng.Intn(np) // one peer's discovery reply arrives somewhere in the middle
 		head += fmt.Sprintf(" late:%d", latePeer)
@@ -1394,6 +1438,9 @@ func genRegHistory(rng regRng, n, np int, faults bool) []string {
 		}
 		if rng.Intn(15) == 0 {
 			ops = append(ops, fmt.Sprintf("reconnect %d", 1+rng.Intn(np))) // skipped while that peer is connected
+		}
+		if rng.Intn(25) == 0 {
+			ops = append(ops, fmt.Sprintf("bareent %d %s", 1+rng.Intn(np), []string{"1", "1.1", "2"}[rng.Intn(3)]))
 		}
 		p := 1 + rng.Intn(np)
 		t := regTup{ents[rng.Intn(len(ents))], 1 + rng.Intn(4), ents[rng.Intn(len(ents))], 1 + rng.Intn(3), []int{1, 1, 1, 2, 2, 4, 0}[rng.Intn(7)]}
@@ -1554,6 +1601,24 @@ func TestRegistry(t *testing.T) {
 	run([]string{"peers 2", "sub 1 0 0 0 0 100", "sub 1 0 0 0 0 4", "sub 2 0 0 1 1 1", "sub 2 0 0 1 1 100", "sub 1 1 1 0 0 1", "sub 1 1 3 0 0 100", "bind 2 0 0 2 2 4", "bind 1 0 0 0 0 1", "subs 1", "subs 2", "binds 2", "notify 1 1", "notify 0 0"})
 	// one subscriber's connection cannot be written to: everybody registered after it is still notified, by every path
 	run([]string{"peers 3 broken:2", "bind 3 1 1 1 1 1", "sub 1 1 1 1 1 1", "sub 2 1 1 1 1 1", "sub 3 1 1 1 1 1", "sub 2 1.1 1 1 1 1", "sub 1 1.1 1 1 1 1", "notify 1 1", "update 1 1", "write 3 1 1 1 1", "subs 2", "unsub 2 0 1 1 1 1", "notify 1 1"})
+	// ordinary server features with subscribers [failing, healthy], [healthy, failing, healthy], [failing, failing, healthy]:
+	// every healthy one is notified exactly once by SetData, UpdateData and an accepted remote write
+	for _, hd := range []struct {
+		head  string
+		order []int
+	}{{"peers 2 broken:1", []int{1, 2}}, {"peers 3 broken:2", []int{1, 2, 3}}, {"peers 3 broken:1,2", []int{1, 2, 3}}, {"peers 3 broken:1,3", []int{1, 2, 3}}} {
+		ops := []string{hd.head}
+		writer := hd.order[len(hd.order)-1]
+		if hd.head == "peers 3 broken:1,3" {
+			writer = 2
+		}
+		ops = append(ops, fmt.Sprintf("bind %d 1 1 1 1 1", writer), fmt.Sprintf("bind %d 1 2 1 2 2", writer))
+		for _, q := range hd.order {
+			ops = append(ops, fmt.Sprintf("sub %d 1 1 1 1 1", q), fmt.Sprintf("sub %d 1 2 1 2 2", q), fmt.Sprintf("sub %d 2 1 2 1 1", q))
+		}
+		ops = append(ops, "notify 1 1", "update 1 1", fmt.Sprintf("write %d 1 1 1 1", writer), "notify 1 2", "update 1 2", fmt.Sprintf("write %d 1 2 1 2", writer), "notify 2 1", "update 2 1")
+		run(ops)
+	}
 	run([]string{"peers 2 broken:1", "sub 1 0 0 0 0 100", "sub 2 0 0 0 0 100", "sub 1 2 1 2 1 1", "sub 2 2 1 2 1 1", "notify 0 0", "notify 2 1", "drop 1", "notify 2 1"})
 	// the device information entity [0] listed among the removed entities at any position, and full notifications that omit it
 	for _, l := range []string{"dropent 1 0,1", "dropent 1 1,0,1.1", "dropent 1 0,1,1.1,2", "full 1 0,2", "full 1 1", "full 1 2,1.1"} {
@@ -1564,6 +1629,10 @@ func TestRegistry(t *testing.T) {
 	for v := 0; v < 8; v++ {
 		run([]string{"peers 2", "sub 1 1 1 1 1 1", "bind 1 1.1 1 1 1 1", "sub 2 1 1 1 1 1", fmt.Sprintf("dropent 1 1,1.1 v%d", v), "subs 1", "binds 1", "bind 2 1 1 1 1 1", "binds 2", "notify 1 1"})
 	}
+	// an entity announced again WITHOUT features keeps its (now stale) entries until it is removed or the peer goes
+	run([]string{"peers 2", "sub 1 1 1 1 1 1", "bind 1 1.1 1 1 1 1", "sub 2 1 1 1 1 1", "bareent 1 1", "subs 1", "sub 1 1 1 1 1 1", "sub 1 1 2 1 2 2", "notify 1 1", "dropent 1 1", "subs 1", "binds 1", "subs 2", "notify 1 1",
+		"bareent 1 2", "bareent 1 1", "sub 1 1 1 1 1 1", "addent 1 1", "sub 1 1 1 1 1 1", "bareent 1 1.1", "binds 1", "drop 1", "subs 1", "binds 1", "subs 2"})
+	run([]string{"peers 2", "sub 1 2 1 2 1 1", "bareent 1 2", "full 1 0,1,1.1", "subs 1", "sub 2 2 1 2 1 1", "bareent 2 2", "full 2 0,1,1.1,2", "subs 2", "dropent 2 0,2", "subs 2"})
 	// a removed SKI connects again
 	run([]string{"peers 2", "sub 1 1 1 1 1 1", "bind 1 1 1 1 1 1", "dropent 1 2", "drop 1", "reconnect 1", "subs 1", "binds 1", "sub 1 2 1 1 1 1", "sub 1 1 1 1 1 1", "bind 1 1 1 1 1 1", "notify 1 1", "write 1 1 1 1 1", "drop 2", "reconnect 2", "sub 2 1 1 1 1 1", "notify 1 1"})
 	// a peer whose discovery reply arrives after another connection was removed
@@ -1596,6 +1665,7 @@ func TestRegistry(t *testing.T) {
 		r.Floor("data changes with subscribers", st.fanNon, st.fanAll, 0.05)
 	}
 	r.Info["faults_executed"] = st.faults
+	r.Info["deletes_of_stale_entries_refused_not_judged"] = st.staleDeletes
 	regShrinkReport(r, func(q *h.Report, ops []string) { runRegHistory(q, d, ev, base, ops, &regStats{}) }, regKnownKeys, true)
 }
 
